@@ -1,7 +1,7 @@
 SPECIFICATION MCSpec
 CONSTANTS
   BufSize = 4
-  MaxStream = 7
+  MaxStream = 10
   MaxCached = 2
   Modes = {"rw", "sp"}
   Relays = {0, 1}
